@@ -12,11 +12,14 @@ CONFIG = {
     "modelled": ["ptt.NewPost/DoPostArticle (from Stampfile on)", "doPostArticleFullTitle", "tnSafeStrip/isTnAllowed/isTnAnnounce",
                  "ptt.WriteFile line loop + entropy", "writeHeader/writeHeaderAuthorBoard/writeHeaderAuthor", "addSimpleSignature", "GetWebURL line",
                  "ptt.StripANSIMoveCmd", "cmsys.Trim", "cmsys.AppendRecord (C05 model)", "cache.SetBTotal", "pwcuIncNumPost",
+                 "site configuration as run-time variables (HAVE_ANONYMOUS, ALLOW_FREE_TN_ANNOUNCE, USE_POST_ENTROPY, QUERY_ARTICLE_URL, USE_AID_URL) read by checkBoardAnonymous / writeHeaderAuthor / isTnAllowed / WriteFile / DoPostArticle / GetWebURL; which variables each site reads is regenerated (Gen.Post.siteConfig)",
+                 "pwcuIncNumPost on (stored counter, caller's copy); sessions = kept user records (ptt.NewPost with a stale record)",
                  "doCrosspost to ALLPOST (index growth and file copy; its title is a parameter)", "bbs.ToArticleID/ArticleID.ToRaw (C13 model)"],
     "assumptions": [
         "Stampfile chooses a name M.<t>.A.<XXX> not present in the board directory (O_EXCL retry loop, wall clock and math/rand are parameters of the model)",
         "10^9 <= t < 2^31 for the article-id round trip (Time4 is a signed 32-bit clock)",
         "system calls do not fail (disk full, permissions); no concurrent writer to the same board (C14 covers the append protocol)",
+        "string-valued configuration (BBSNAME, MYHOSTNAME, URL_PREFIX), MAX_POST_MONEY/ENTROPY_RATIO and USE_HIDDEN_BOARD_NOCREDIT are taken at their source defaults (validated by the consts op), not varied",
         "permission decisions (who may post where, who may keep the announcement tag, which boards are credited/open/anonymous) are inputs of the model: property C08",
         "no NEWIDPOST / UNANONYMOUS / ALLHIDPOST cross-post target exists in the fixture; the ALLPOST copy's title (SubjectEx + dbcsSafeTrimTitle) is a parameter",
     ],
